@@ -13,10 +13,12 @@ CONSTANT Mode
 Dirs == {"R", "C", "L1", "L2"}
 DS == {"absent", "dir", "meta", "meta_ci"}
 HasMeta(s) == s \in {"meta", "meta_ci"}
-Configs == {c \in [st : [Dirs -> DS], names : {"cur", "leg", "both", "none"}, content : {"valid", "validempty", "notjson", "empty", "wrongtype"},
-                   cibad : BOOLEAN, slash : BOOLEAN] :
+Configs == {c \in [st : [Dirs -> DS], names : {"cur", "leg", "both", "none", "mix_il", "mix_rl"}, content : {"valid", "validempty", "notjson", "empty", "wrongtype"},
+                   cibad : BOOLEAN, slash : BOOLEAN, rev : BOOLEAN] :
               /\ (c.st["R"] = "absent" => \A d \in Dirs : c.st[d] = "absent")
               /\ (c.cibad => c.content = "valid")
+              /\ (c.rev => c.names \in {"mix_il", "mix_rl", "both"} /\ ~c.slash)     \* accessor order matters only for mixed generations
+              /\ (c.names \in {"mix_il", "mix_rl"} => c.content \in {"valid", "notjson"})
               /\ (Mode = "quick" => (c.slash => c.names = "cur") /\ (c.content # "valid" => c.names \in {"cur", "both"}) /\ (c.content = "validempty" => c.names = "cur")) }
 \* ---- resolution
 Resolved(c) ==
@@ -27,10 +29,11 @@ Resolved(c) ==
 \* ---- accessors on the resolved directory d
 Names(kind, c) == CASE kind = "info" -> {"composeinfo.json"}
                     [] kind = "modules" -> IF c.names = "none" THEN {} ELSE {"modules.json"}
-                    [] kind = "images" -> (IF c.names \in {"cur", "both"} THEN {"images.json"} ELSE {}) \cup
-                                          (IF c.names \in {"leg", "both"} THEN {"image-manifest.json"} ELSE {})
-                    [] kind = "rpms" -> (IF c.names \in {"cur", "both"} THEN {"rpms.json"} ELSE {}) \cup
-                                        (IF c.names \in {"leg", "both"} THEN {"rpm-manifest.json"} ELSE {})
+                    \* mix_il: images under the legacy name, rpms under the current one; mix_rl the other way round
+                    [] kind = "images" -> (IF c.names \in {"cur", "both", "mix_rl"} THEN {"images.json"} ELSE {}) \cup
+                                          (IF c.names \in {"leg", "both", "mix_il"} THEN {"image-manifest.json"} ELSE {})
+                    [] kind = "rpms" -> (IF c.names \in {"cur", "both", "mix_il"} THEN {"rpms.json"} ELSE {}) \cup
+                                        (IF c.names \in {"leg", "both", "mix_rl"} THEN {"rpm-manifest.json"} ELSE {})
 Get(kind, c, d) ==
   LET present == IF ~HasMeta(c.st[d]) THEN {} ELSE IF kind = "info" THEN (IF c.st[d] = "meta_ci" THEN {"composeinfo.json"} ELSE {})
                  ELSE Names(kind, c)
@@ -47,7 +50,7 @@ ASSUME Exists
 VARIABLE c
 Init == c \in Configs
 Next == FALSE /\ UNCHANGED c
-Emit == PrintT("@@" \o ToJson([st |-> c.st, names |-> c.names, content |-> c.content, cibad |-> c.cibad, slash |-> c.slash,
+Emit == PrintT("@@" \o ToJson([st |-> c.st, names |-> c.names, content |-> c.content, cibad |-> c.cibad, slash |-> c.slash, rev |-> c.rev,
                                 resolved |-> Resolved(c),
                                 exp |-> [d \in Resolved(c) |-> [k \in Kinds |-> Get(k, c, d)]]]))
 =============================================================================
